@@ -50,6 +50,7 @@ func vArmorEncrypt(plain []byte, pass string) []byte {
 }
 
 // newSealedWorld: file = "ok" | "edbad" (Ed25519 file holds an RSA key) | "rsabad" (main key does not parse) | "ed" (both fine)
+// | "edotherpass" (Ed25519 file under another passphrase) | "edprimary" | "ecprimary521"
 // an optional ":pre<x>" suffix preloads the list of published keymaster public keys (keymaster_public_keys_filename)
 // with the Ed25519 key ("preed"), the main key ("prersa"), a foreign key ("preforeign") or Ed25519 + foreign ("premix")
 func newSealedWorld(file string) *vWorld {
@@ -80,6 +81,9 @@ func newSealedWorldFile(file string) *vWorld {
 		st.Ed25519CAFileContent = vArmorEncrypt(vEdKeyPEM, vPassphrase)
 	case "edbad":
 		st.Ed25519CAFileContent = vArmorEncrypt(vCAKeyPEM, vPassphrase)
+	case "edotherpass":
+		// the Ed25519 CA file is sealed under ANOTHER passphrase than the main key: the injected one opens only half
+		st.Ed25519CAFileContent = vArmorEncrypt(vEdKeyPEM, "another passphrase entirely")
 	case "edprimary":
 		// the primary CA file decrypts fine but holds a key type that is refused as primary signer
 		st.SSHCARawFileContent = vArmorEncrypt(vEdKeyPEM, vPassphrase)
@@ -305,7 +309,16 @@ func runC09(t *testing.T, cases []map[string]interface{}, ev *vEvents) {
 			steps, _ := c["steps"].([]interface{})
 			for _, s := range steps {
 				a := s.(map[string]interface{})
-				r := w.inject(vStr(a, "pass"), vBool(a, "cert"), vBool(a, "tls"))
+				var r vResp
+				if vStr(a, "via") == "aws" {
+					// the automatic path: what tryAwsUnseal does once it holds the secret (no HTTP request, no certificate)
+					r.Status = 200
+					if err := w.st.unsealCA([]byte(vPassVariant(vStr(a, "pass"))), "AWS Secrets Manager"); err != nil {
+						r.Status = 400
+					}
+				} else {
+					r = w.inject(vStr(a, "pass"), vBool(a, "cert"), vBool(a, "tls"))
+				}
 				sealed := w.isSealed()
 				pubOK := false
 				if !sealed {
